@@ -7,7 +7,7 @@ Wire layout (from the property statement and doc/reference/serialization.rst): p
 """
 from pyvc.api import *  # noqa: F403
 
-from contracts.common import RUST_MODELS, TASK_STUBS  # noqa: F401
+from contracts.common import PEER_OBJ, RUST_MODELS, TASK_STUBS  # noqa: F401
 
 try:
     from ipv8.keyvault.crypto import ECCrypto, default_eccrypto  # noqa: F401
@@ -17,6 +17,9 @@ try:
     from ipv8.messaging.payload_headers import BinMemberAuthenticationPayload, GlobalTimeDistributionPayload  # noqa: F401
     from ipv8.messaging.serialization import default_serializer, PackError  # noqa: F401
     from ipv8.peer import Peer  # noqa: F401
+    from ipv8.messaging.interfaces.udp.endpoint import UDPv4Address  # noqa: F401
+    from collections import OrderedDict  # noqa: F401
+    from contextlib import nullcontext  # noqa: F401
 except ImportError:
     pass
 
@@ -67,14 +70,28 @@ contract(f"{KV}::ECCrypto.is_valid_signature", "is_valid_signature=>Sig",
 # a known peer in the network's by-key index satisfies C12's invariant I_key (its key is the index key)
 PEERT = OBJ("ipv8/peer.py::Peer", public_key=OBJ("ipv8/keyvault/public/openssl.py::OpenSSLPK",
                                                  ec=OBJ("contracts/common.py::RustPublicKeyModel", bin=BYTES)))
+# ... and the graph may hold a verified peer `vp` (ANY key, ANY address - possibly the very address a datagram comes from): the identity
+# handed to a handler must come from the authenticated key, never from the source address
 NETWORK = OBJ(f"{NET}::Network",
-              verified_by_public_key_bin=DICTOBJ(BYTES, PEERT, where="v.public_key.ec.bin == k"))
+              verified_by_public_key_bin=DICTOBJ(BYTES, PEERT, where="v.public_key.ec.bin == k"),
+              verified_peers=EXPR("{vp}"), reverse_ip_lookup=EXPR("OrderedDict()"), reverse_ip_cache_size=EXPR("500"),
+              graph_lock=EXPR("nullcontext()"))
+VP = {"vp_addr": ADDRESS, "vp": PEER_OBJ(_addresses=EXPR("one_address(vp_addr)"))}
+
+
+def one_address(a):
+    from ipv8.peer import DirtyDict
+    d = DirtyDict()
+    d[UDPv4Address] = a
+    d.dirty = False
+    return d
+
 OVERLAY = OBJ(f"{COM}::Community", serializer=EXPR("default_serializer"), network=NETWORK, _prefix=BYTES_N(22),
               logger=LOGGER())
 PEER_STUBS = {"ipv8/peer.py::Peer.add_address": {"event": "add_address", "note": "address bookkeeping, irrelevant to identity"}}
 
 contract(f"{LC}::EZPackOverlay._verify_signature", "_verify_signature",
-         vars={"self": OVERLAY, "pk": BYTES, "auth": OBJ("ipv8/messaging/payload_headers.py::BinMemberAuthenticationPayload",
+         vars={**VP, "self": OVERLAY, "pk": BYTES, "auth": OBJ("ipv8/messaging/payload_headers.py::BinMemberAuthenticationPayload",
                                                         public_key_bin=EXPR("pk")), "data": BYTES},
          requires=["uf_bool('valid_public_key', pk)", "len(pk) > 0"],
          call="self._verify_signature(auth, data)", raises=[], all_params=True,
@@ -85,7 +102,7 @@ contract(f"{LC}::EZPackOverlay._verify_signature", "_verify_signature",
               "sub-slice of the signed region")
 
 contract(f"{LC}::EZPackOverlay._verify_signature", "_verify_signature.second-datagram-is-checked-too",
-         vars={"self": OVERLAY, "pk0": BYTES, "pk": BYTES, "data0": BYTES, "data": BYTES,
+         vars={**VP, "self": OVERLAY, "pk0": BYTES, "pk": BYTES, "data0": BYTES, "data": BYTES,
                "auth0": OBJ("ipv8/messaging/payload_headers.py::BinMemberAuthenticationPayload", public_key_bin=EXPR("pk0")),
                "auth": OBJ("ipv8/messaging/payload_headers.py::BinMemberAuthenticationPayload", public_key_bin=EXPR("pk"))},
          requires=["uf_bool('valid_public_key', pk)", "len(pk) > 0", "uf_bool('valid_public_key', pk0)", "len(pk0) > 0"],
@@ -114,25 +131,28 @@ for _wname in ("lazy_wrapper", "lazy_wrapper_wd"):
         if _wname == "lazy_wrapper_wd":
             _g.append("args[len(args) - 1] == data")
         contract(f"{LC}::{_wname}.decorator.wrapper", f"{_wname}[{_iname}].call-guard",
-                 vars={"self": OVERLAY, "func": FUNC, "source": ADDRESS, "data": BYTES,
+                 vars={**VP, "self": OVERLAY, "func": FUNC, "source": ADDRESS, "data": BYTES,
                        "W": EXPR(f"{_wname}(*{_payloads})(func)")},
                  call="W(self, source, data)", raises=None,
-                 on_effect={"func": _g},
+                 on_effect={"func": _g,
+                            # the address book of an already verified peer is touched only for an authentic datagram of that very key
+                            "add_address": ["authentic(data)", "args[0].public_key.key_to_bin() == pk_at(data)", "args[1] == source"]},
                  ensures_raise=["len(calls('func')) <= 1"],
                  covers=["len(calls('func')) == 1"],
                  stubs=PEER_STUBS,
                  note="the decorated handler is entered only for an authentic datagram, with the peer identity being exactly "
                       "the key carried in the datagram, and with payloads decoded from inside the signed region")
         contract(f"{LC}::{_wname}.decorator.wrapper", f"{_wname}[{_iname}].invalid-signature-rejected",
-                 vars={"self": OVERLAY, "func": FUNC, "source": ADDRESS, "data": BYTES,
+                 vars={**VP, "self": OVERLAY, "func": FUNC, "source": ADDRESS, "data": BYTES,
                        "W": EXPR(f"{_wname}(*{_payloads})(func)")},
                  requires=["not authentic(data)"],
                  call="W(self, source, data)", raises=None, stubs=PEER_STUBS,
-                 ensures=["False"], ensures_raise=["len(calls('func')) == 0"],
-                 note="with an invalid signature the wrapper always raises and never enters the handler")
+                 ensures=["False"], ensures_raise=["len(calls('func')) == 0", "len(calls('add_address')) == 0"],
+                 note="with an invalid signature the wrapper always raises, never enters the handler and leaves the verified peers' "
+                      "address books alone")
 
 contract(f"{LC}::EZPackOverlay._ez_unpack_auth", "_ez_unpack_auth",
-         vars={"self": OVERLAY, "data": BYTES, "CLS": EXPR("GlobalTimeDistributionPayload")},
+         vars={**VP, "self": OVERLAY, "data": BYTES, "CLS": EXPR("GlobalTimeDistributionPayload")},
          call="self._ez_unpack_auth(CLS, data)", raises=None, all_params=True,
          ensures=["authentic(data)", "result[0].public_key_bin == pk_at(data)",
                   "25 + len(pk_at(data)) + 16 + siglen(pk_at(data)) == len(data)"],
@@ -262,3 +282,14 @@ contract(f"{DC}::DiscoveryCommunity.on_old_introduction_request", "on_old_introd
                     "unpack_auth": ["len(args) == 3 and args[2] is data"]},
          covers=["len(calls('add_verified_peer')) == 1"],
          note="a key becomes a verified peer (and gets an answer) through this handler only for an authentic datagram signed by it")
+
+# bounded native stand-in with the REAL key vault (also a cross-check of the sidecar's key models): honest, bit-flipped, re-keyed,
+# replayed-signature and truncated datagrams through Community.on_packet
+native("authenticated-delivery-with-real-keys", "natives/c01_auth.py",
+       bound="3 key types x 4 rounds (12 thorough) x {honest, one flipped bit at every byte, key field swapped, accepted signature re-used "
+             "over another body, every proper prefix, squatter at the source address} for lazy_wrapper, lazy_wrapper_wd and the "
+             "introduction-request handler; VERIF_SEED-seeded",
+       functions=["ipv8/lazy_community.py::lazy_wrapper", "ipv8/lazy_community.py::lazy_wrapper_wd",
+                  "ipv8/lazy_community.py::EZPackOverlay._verify_signature", "ipv8/community.py::Community.on_packet",
+                  "ipv8/keyvault/crypto.py::ECCrypto.is_valid_signature"],
+       note="only datagrams signed by the key they name reach a handler, and the handler gets that key's peer")
